@@ -57,6 +57,28 @@ NoTQC == [view |-> -1, g |-> TRUE, groups |-> <<>>, sig |-> TRUE]
 XJustValid(x) == IF x.k = "c" THEN CommitQCValid(x.cq) ELSE TimeoutQCValid(x.tq)
 XJustDerived(x) == IF x.k = "c" THEN CJ(x.cq.vote) ELSE TJ(DerivedTQ(x.tq))
 
+(***************************************************************************)
+(* Incremental assembly. A signed vote is [from, vote, g, sigok];           *)
+(* CommitQC::add refuses a non-member, a repeated signer, a bad signature,  *)
+(* a different vote and a vote for another chain, and otherwise adds the    *)
+(* signer (replica_commit.rs:95-134). TimeoutQC::add likewise, keyed by the *)
+(* signer over ALL groups (replica_timeout.rs:154-197).                     *)
+(***************************************************************************)
+CommitAddOK(c, m) ==
+    /\ m.from \in Validators
+    /\ m.from \notin c.signers
+    /\ m.sigok
+    /\ m.vote = c.vote /\ m.g = c.g
+    /\ m.g
+CommitAdd(c, m) == IF CommitAddOK(c, m) THEN [c EXCEPT !.signers = c.signers \cup {m.from}] ELSE c
+
+TimeoutAddOK(t, m) ==        \* m = [from, msg: TMsg, sigok]
+    /\ m.from \in Validators
+    /\ m.from \notin GroupSigners(t)
+    /\ m.sigok
+    /\ m.msg.view = t.view /\ m.msg.g = t.g
+    /\ TimeoutMsgValid(m.msg)
+
 (* Block = payload + certificate; pay is the NAME of the payload whose hash the header carries. *)
 BlockValid(b) == b.payhash = b.qc.vote.pay /\ CommitQCValid(b.qc)
 =============================================================================
